@@ -1,4 +1,5 @@
-import EdpVerif.Generated.Misc
+import EdpVerif.Generated.MiscC18
+import EdpVerif.Generated.MiscState
 import EdpVerif.Lemmas.ProcsLate
 import EdpVerif.Lemmas.Behaviours
 /-
